@@ -19,6 +19,8 @@
 import json
 import random
 import vf
+import repotrace
+import sccorr_common as sc
 
 
 def order_class(sched):
@@ -76,7 +78,7 @@ def body(run):
         cases.append(s)
     run.log("TLC: %d states; %d schedules generated (%d with a duplicate number in the model, %d order classes); %d forced, %d free runs" % (
         run.cov["states"], len(behs), len(bad), len(by), base, len(stress)))
-    results = run.go_run(exe[0], [], cases=cases, timeout=run.pick(600, 3000))
+    results = run.go_run(exe[0], [], cases=cases, timeout=run.pick(600, 3000), env=sc.race_env())
     if len(results) < len(cases):
         raise vf.Inconclusive("harness returned %d results for %d cases" % (len(results), len(cases)))
     # trace validation by TLC: all recorded chunk.write traces in one file
@@ -137,6 +139,8 @@ def body(run):
         r["detail"] = "%s: chunk %d of the trace breaks the rule (%s); last chunks: %s" % (
             scen, v["at"], v["verdict"], [(e["dir"], e["type"], e["hi"] * 65536 + e["lo"], e["req"], e["i"], e.get("who")) for e in ev])
     run.absorb(results)
+    if not run.quick():
+        repotrace.validate(run, side="send")   # family T: chunk.write traces of the repository's own tests (design/T.md)
     run.cov["schedules_generated"] = len(behs)
     run.cov["schedules_forced"] = base
     run.cov["schedules_not_drivable"] = drift
